@@ -82,7 +82,7 @@ where
         let mut o = self.dst.write_buf()?;
         let (input, tags) = self.src.read_buf()?;
         let n = std::cmp::min(input.len(), o.len());
-        o.fill_from_slice(input.slice());
+        o.fill_from_slice(&input.slice()[..n]);
         o.produce(n, &tags);
         input.consume(n);
         Ok(BlockRet::Again)
